@@ -109,6 +109,7 @@ var fnames = map[string]string{
 	"absent": "", "quoted": `; filename="file.txt"`, "unquoted2": "; filename=ab", "unquoted1": "; filename=a",
 	"empty": "; filename=", "quoteonly": `; filename="`, "unterminated": `; filename="abc`,
 	"dup": `; filename="a.txt"; filename="b.txt"`, "encoded": `; filename="=?UTF-8?q?f=C3=BCr_dich.txt?="`,
+	"encodedkoi": `; filename="=?KOI8-R?B?8NLJ18XULnR4dA==?="`, // an encoded word in a charset the decoder may not know
 	"sizeneg": `; filename="f.txt"; size=-5`, "sizehuge": `; filename="f.txt"; size=9223372036854775807`, "sizeok": `; filename="f.txt"; size=7`,
 }
 
